@@ -3,7 +3,7 @@
    configuration, every behaviour of the modelled third-party code (RSA, serde), every
    adapter result and latency, every inbox of client frames and every timing. *)
 From Passage Require Import Lib.Bytes Codec.Desc Gen.PacketsGen Conn.Types Conn.Prog Conn.Sem1
-  Conn.Monitor Conn.MonitorProofs Conn.Order Conn.OrderProofs Conn.Checks Conn.Walk_C03.
+  Conn.Monitor Conn.MonitorProofs Conn.Order Conn.OrderProofs Conn.Checks Conn.Walk_C03 Adapters.Locale Adapters.LocaleProofs.
 
 Theorem C03_walk : forall o cfg, safe (step_with chk_c03) m_init (listen o cfg).
 Proof. exact listen_c03_safe. Qed.
@@ -20,6 +20,21 @@ Theorem C03_every_event_checked : forall o cfg e ib pre ev post,
     (internal_at (q st) ev = true \/ exists q', delta (q st) ev = Some q' /\ chk_c03 st ev = true).
 Proof. intros o cfg e ib pre ev post H. eapply accepted_event_checked; [apply c03_accepts | exact H]. Qed.
 
+(* the configured message: FixedLocalizationAdapter walks the reported locale, then its
+   prefixes at every '_' from the longest to the shortest, then the default locale likewise;
+   the first candidate that has a table decides (its entry for the key, or the key itself) *)
+Theorem C03_locale_candidates : forall loc c,
+  In c (append_locale loc) <-> c = loc \/ exists i, nth_error loc i = Some 95 /\ c = firstn i loc.
+Proof. exact candidates_are_prefixes. Qed.
+
+Theorem C03_locale_first_table : forall tables cands t,
+  first_table cands tables = Some t <->
+  exists pre c post, cands = pre ++ c :: post /\ lookup_tbl c tables = Some t
+                     /\ forall x, In x pre -> lookup_tbl x tables = None.
+Proof. exact first_table_spec. Qed.
+
 Print Assumptions C03_walk.
+Print Assumptions C03_locale_candidates.
+Print Assumptions C03_locale_first_table.
 Print Assumptions C03_accepts.
 Print Assumptions C03_every_event_checked.
